@@ -374,8 +374,8 @@ def parallel_map(fn, tasks, nproc=None, max_tasks_per_child=None, ndev=None, tim
     envd = {k: v for k, v in worker_env(ndev).items() if k in ("JAX_PLATFORMS", "OMP_NUM_THREADS", "TF_CPP_MIN_LOG_LEVEL", "XLA_FLAGS")}
     ctx = mp.get_context("spawn")
     kw = {}
-    if max_tasks_per_child:
-        kw["max_tasks_per_child"] = max_tasks_per_child
+    # max_tasks_per_child is deliberately ignored: with the spawn context on CPython 3.12.1 the pool can
+    # deadlock when workers retire; worker functions call jax.clear_caches() themselves to bound memory.
     with cf.ProcessPoolExecutor(max_workers=nproc, mp_context=ctx, initializer=_pool_init, initargs=(envd,), **kw) as ex:
         futs = [ex.submit(fn, t) for t in tasks]
         out = []
